@@ -1,6 +1,61 @@
+import Proofs.C02.Ecdsa
 /-!
-# C02 — property theorems only (see DESIGN.md §3 C02).
+# C02 — ECDSA: signatures verify, verification is the SEC 1 equation, recovery, DER is canonical
+
+Property theorems only (DESIGN §3 C02).  The scheme is `Btc.Ecdsa.*` (Model/C02/Ecdsa.lean), the SAME
+definitions the driver executes with `Btc.EC.ops c` against btclib; here they are reasoned about for
+every `o : GroupOps α` that is `Lawful` (the operations are those of a group of prime exponent `n` with
+an x-coordinate map — for `Btc.EC.ops c` that is property C01, a named hypothesis here).
+`mod_inv` is the executable extended Euclid `Btc.EC.modInv`, proved to invert (Proofs/C02/Basic.lean).
 -/
 namespace Props.C02
+open Btc Btc.Ecdsa
+
+variable {α G : Type} [AddCommGroup G] {o : GroupOps α}
+
+/-- T1 (completeness): every `(r, s)` that `_sign_recoverable_` returns — for any challenge `c`, key `q`,
+    nonce `k ∈ 1..n-1`, with or without `lower_s` — is accepted by the verifier under (any representation
+    of) the public key `q·G`; and with `lower_s` the signature is in low-s form. -/
+theorem ecdsa_sign_verifies (L : Lawful o G) {c q k : ℤ} {lowerS : Bool} {r s kid : ℤ}
+    (hk : 0 < k ∧ k < o.n) (Q : α) (hQ : L.abs Q = q • L.abs o.gen)
+    (h : signRecoverable o c q k lowerS = .ok (r, s, kid)) :
+    verify o c Q r s = true ∧ (lowerS = true → s ≤ o.n / 2) :=
+  sign_verifies L hk Q hQ h
+
+/-- T2 (exactness and totality): `verify` is a total boolean function of ANY integers `c, r, s` and ANY
+    element `Q` (it has no error outcome), and it answers `true` exactly when `r, s ∈ 1..n-1` and, for
+    `w = s⁻¹ mod n`, the group element `K = (r w)·Q + (c w)·G` is not the identity and `x(K) mod n = r`
+    (`Btc.Ecdsa.SEC1`: SEC 1 v2 §4.1.4). -/
+theorem ecdsa_verify_iff_sec1 (L : Lawful o G) (c : ℤ) (Q : α) (r s : ℤ) :
+    verify o c Q r s = true ↔ SEC1 L c Q r s :=
+  verify_iff_SEC1 L c Q r s
+
+/-- T3 (recovery): with the `key_id` that signing returned, `_recover_pub_key_` answers the signer's key
+    `q·G` — whatever `j = x_K // n` was (the `x_K ≥ n` case included), after the low-s flip as well, on
+    the prime-order arm and on the cofactor arm (whose re-verification passes).  `YParity` is the
+    additional law "the parity of y is a function of the group element" (proposed for `Lawful`). -/
+theorem ecdsa_recover_signer (L : Lawful o G) (hy : YParity L) {c q k : ℤ} {lowerS : Bool} {r s kid : ℤ}
+    (hk : 0 < k ∧ k < o.n) (hq : 0 < q ∧ q < o.n)
+    (h : signRecoverable o c q k lowerS = .ok (r, s, kid))
+    (primeOrder lowerS' : Bool) (hl' : lowerS' = true → lowerS = true) :
+    ∃ Q', recover o primeOrder kid c r s lowerS' = .ok Q' ∧ L.abs Q' = q • L.abs o.gen :=
+  recover_signer L hy hk hq h primeOrder lowerS' hl'
+
+/-- T6 (nonce reuse): two signatures made with one key and one nonce over two challenges, with different
+    `s`, give back exactly `(q, k)`. -/
+theorem ecdsa_crack (L : Lawful o G) {c1 c2 q k r1 s1 id1 r2 s2 id2 : ℤ}
+    (hk : 0 < k ∧ k < o.n) (hq : 0 < q ∧ q < o.n)
+    (h1 : signRecoverable o c1 q k false = .ok (r1, s1, id1))
+    (h2 : signRecoverable o c2 q k false = .ok (r2, s2, id2)) (hne : s1 ≠ s2) :
+    crack o c1 r1 s1 c2 r2 s2 = .ok (q, k) :=
+  crack_correct L hk hq h1 h2 hne
+
+-- non-vacuity: the hypotheses are met by concrete executions on a 13-point curve (p = 19, n = 13)
+def toy : EC.Curve := { p := 19, a := 0, b := 2, gx := 4, gy := 16, n := 13, h := 2 }
+example : signRecoverable (EC.ops toy) 3 5 1 true = .ok (4, 3, 1) := by decide +kernel
+example : verify (EC.ops toy) 3 ((EC.mult toy 5 toy.G).getD EC.INF) 4 3 = true := by decide +kernel
+example : verify (EC.ops toy) 3 ((EC.mult toy 5 toy.G).getD EC.INF) 4 4 = false := by decide +kernel
+example : recover (EC.ops toy) false 1 3 4 3 true = .ok ((EC.mult toy 5 toy.G).getD EC.INF) := by
+  decide +kernel
 
 end Props.C02
